@@ -27,6 +27,7 @@ type Term struct {
 // symbol meaning stable across a function and its callees' contracts we use
 // one Universe per run and emit all of it (it is small).
 type Universe struct {
+	priv string // name of the local variable whose private heaps are being addressed ("" = shared heaps)
 	P        *Program
 	prelude  []*SX
 	Sigs     map[string]*Sig // all known function symbols
@@ -322,12 +323,12 @@ func (U *Universe) derefHeap(elem types.Type) *heapInfo {
 	es := U.sortOf(elem)
 	key := "deref." + sortTag(es)
 	if h, ok := U.heaps[key]; ok {
-		return h
+		return U.privOf(h)
 	}
 	h := &heapInfo{Key: key, Sym: "H." + key, Elem: es}
 	U.heaps[key] = h
 	U.heapO = append(U.heapO, key)
-	return h
+	return U.privOf(h)
 }
 
 func (U *Universe) globalHeap(g *ssa.Global) *heapInfo {
